@@ -46,10 +46,34 @@ pub fn run_main(args: &[String]) {
     let index = std::fs::read_to_string(format!("{}/index.txt", dir)).unwrap();
     let mut lines = String::new();
     for l in index.lines() { let id = l.split(' ').next().unwrap(); let bytes = std::fs::read(format!("{}/{}.wasm", dir, id)).unwrap();
-        for variant in 0..3u8 {
-            let res = catch(|| -> std::result::Result<Vec<u8>, String> { let mut c = ModuleConfig::new(); c.generate_producers_section(false); if variant == 2 { c.preserve_code_transform(true); }
-                let mut m = c.parse(&bytes).map_err(|e| format!("{:#}", e))?; if variant == 1 { passes::gc::run(&mut m); } Ok(m.emit_wasm()) });
+        for variant in 0..4u8 {
+            let res = catch(|| -> std::result::Result<Vec<u8>, String> { let mut c = ModuleConfig::new(); c.generate_producers_section(false); if variant >= 2 { c.preserve_code_transform(true); }
+                let mut m = c.parse(&bytes).map_err(|e| format!("{:#}", e))?; if variant == 1 { passes::gc::run(&mut m); } if variant == 3 { duplicate_located_instruction(&mut m); m.customs.add(CtDump { payload: vec![] }); } Ok(m.emit_wasm()) });
             let v = match res { Some(Ok(o)) => format!("ok {} {:016x}", o.len(), fnv(&o)), Some(Err(e)) => format!("err {}", e.replace('\n', " ")), None => "panic".to_string() };
             lines += &format!("{} {} {}\n", id, variant, v); } }
     std::fs::write(out, lines).unwrap();
+}
+
+/// a custom section whose payload is the whole CodeTransform it is handed (so that the emitted bytes depend on every entry of it)
+#[derive(Debug)]
+struct CtDump { payload: Vec<u8> }
+impl CustomSection for CtDump {
+    fn name(&self) -> &str { "ct-dump" }
+    fn data(&self, _: &IdsToIndices) -> std::borrow::Cow<[u8]> { std::borrow::Cow::Borrowed(&self.payload) }
+    fn apply_code_transform(&mut self, t: &CodeTransform) {
+        let mut p = vec![]; p.extend((t.code_section_start as u64).to_le_bytes());
+        for (l, o) in &t.instruction_map { p.extend(l.data().to_le_bytes()); p.extend((*o as u64).to_le_bytes()); }
+        for (f, r) in &t.function_ranges { p.extend((f.index() as u64).to_le_bytes()); p.extend((r.start as u64).to_le_bytes()); p.extend((r.end as u64).to_le_bytes()); }
+        self.payload = p;
+    }
+}
+/// what an inliner does: the first located constant of the module is copied, WITH its source location, to the front of every
+/// local function (followed by an unlocated drop), so that one InstrLocId is emitted several times
+fn duplicate_located_instruction(m: &mut Module) {
+    let mut found: Option<(ir::Instr, ir::InstrLocId)> = None;
+    for (_, lf) in m.funcs.iter_local() { let entry = lf.entry_block(); for (i, l) in &lf.block(entry).instrs { if let ir::Instr::Const(_) = i { if !l.is_default() { found = Some((i.clone(), *l)); break; } } } if found.is_some() { break; } }
+    let (instr, loc) = match found { Some(x) => x, None => return };
+    let ids: Vec<FunctionId> = m.funcs.iter_local().map(|(id, _)| id).collect();
+    for fid in ids { let lf = m.funcs.get_mut(fid).kind.unwrap_local_mut(); let entry = lf.entry_block(); let seq = lf.block_mut(entry);
+        seq.instrs.insert(0, (ir::Instr::Drop(ir::Drop {}), ir::InstrLocId::default())); seq.instrs.insert(0, (instr.clone(), loc)); }
 }
